@@ -25,7 +25,7 @@ def run_demo(seed):
     try:
         rc, out = sh(cmd, cwd=REPO, timeout=1200)
     finally:
-        sh("rm -rf SEED build", cwd=REPO)
+        sh("rm -rf SEED build && git clean -fdxq", cwd=REPO)
     return rc, out[-1500:]
 
 
@@ -79,7 +79,7 @@ def main():
         res["detected_by"] = [p for p, d in det.items() if d["exit"] == 1]
         return finish(seed, res, 0)
     finally:
-        sh("git checkout -- . && git clean -fdq build 2>/dev/null; rm -f /tmp/seed_demo", cwd=REPO)
+        sh("git checkout -- . && git clean -fdxq; rm -f /tmp/seed_demo", cwd=REPO)
 
 
 def finish(seed, res, rc):
